@@ -74,6 +74,10 @@ struct Sweep {
 
 #[derive(Clone, Debug, Serialize, Deserialize, PartialEq)]
 struct Scn {
+    /// build mode that executes the scenario: "release" | "relchk" (overflow checks, debug
+    /// assertions, all instruction-set features of this CPU enabled at compile time)
+    #[serde(default = "default_mode")]
+    mode: String,
     device_id: u32,
     packet_seq: u32,
     channel_seq: u16,
@@ -83,6 +87,10 @@ struct Scn {
     payload: PayloadSpec,
     sweep: Option<Sweep>,
     faults: Vec<Delivery>,
+}
+
+fn default_mode() -> String {
+    "release".into()
 }
 
 impl Scn {
@@ -430,11 +438,18 @@ impl Check for C03Check {
     }
     fn count(&self, tier: Tier) -> u64 {
         match tier {
-            Tier::Quick => 64 + SPECIAL.len() as u64 + 160,
-            Tier::Thorough => 64 + SPECIAL.len() as u64 + 6000 + 2 * 64 + 2,
+            // every scenario exists for both build modes (index parity)
+            Tier::Quick => 2 * (64 + SPECIAL.len() as u64 + 160),
+            Tier::Thorough => 2 * (64 + SPECIAL.len() as u64 + 6000 + 2 * 64 + 2),
         }
     }
-    fn generate(&self, seed: u64, index: u64, tier: Tier) -> Value {
+    fn dual_mode(&self) -> bool {
+        true
+    }
+    fn generate(&self, _seed: u64, index: u64, tier: Tier) -> Value {
+        let mode = if index % 2 == 1 { "relchk" } else { "release" };
+        let index = index / 2;
+        let seed = simcore::run_seed(simcore::driver::verif_seed(), "C03-pair", index);
         let mut r = Rng::new(seed);
         let b = boards::pwb_boards();
         let field32 = |r: &mut Rng| *r.pick(&[0u32, 1, 0x8000_0000, 0xFFFF_FFFE, 0xFFFF_FFFF, r.clone().next_u32()]);
@@ -480,6 +495,7 @@ impl Check for C03Check {
             *r.pick(&["random", "random", "random", "zero", "ff"])
         };
         let scn = Scn {
+            mode: mode.into(),
             device_id: r.pick(b).device_id,
             packet_seq: field32(&mut r),
             channel_seq: field16(&mut r),
@@ -506,6 +522,14 @@ impl Check for C03Check {
     }
 
     fn run(&self, scenario: &Value, stats: &mut Stats) -> Outcome {
+        {
+            let mode = scenario["mode"].as_str().unwrap_or("release");
+            if (mode == "relchk") != cfg!(debug_assertions) {
+                // executed by the wrong binary: harness error rather than a silent pass
+                simcore::driver::harness_error(&format!("C03 scenario of mode {mode} executed by the wrong build"));
+            }
+            stats.probe(&format!("mode:{mode}"));
+        }
         // environment seam (see senv.rs): half of the scenarios run with fabricated variables
         struct EnvGuard;
         impl Drop for EnvGuard {
